@@ -286,6 +286,11 @@ func normalizeTypeName(t types.Type) string {
 	return typePathCleaner.ReplaceAllString(s, "")
 }
 
+// selfCallSignature stands for a call of the function to itself.  Recording the
+// function's own name instead would tie the call profile (and with it the topology
+// hash and the required calls of a signature) to what the function is called.
+const selfCallSignature = "self"
+
 func extractCallSignature(call *ssa.Call) string {
 	if call.Call.IsInvoke() {
 		recvType := call.Call.Value.Type()
@@ -294,6 +299,9 @@ func extractCallSignature(call *ssa.Call) string {
 
 	switch v := call.Call.Value.(type) {
 	case *ssa.Function:
+		if v == call.Parent() {
+			return selfCallSignature
+		}
 		return extractFunctionSig(v)
 	case *ssa.Builtin:
 		return fmt.Sprintf("builtin:%s", v.Name())
@@ -323,6 +331,9 @@ func extractGoSignature(g *ssa.Go) string {
 
 	switch v := g.Call.Value.(type) {
 	case *ssa.Function:
+		if v == g.Parent() {
+			return selfCallSignature
+		}
 		return extractFunctionSig(v)
 	case *ssa.MakeClosure:
 		if sig := extractClosureSignature(v); sig != "" {
@@ -345,6 +356,9 @@ func extractDeferSignature(d *ssa.Defer) string {
 
 	switch v := d.Call.Value.(type) {
 	case *ssa.Function:
+		if v == d.Parent() {
+			return selfCallSignature
+		}
 		return extractFunctionSig(v)
 	case *ssa.MakeClosure:
 		if sig := extractClosureSignature(v); sig != "" {
